@@ -302,17 +302,29 @@ def adjust_offsets_w_sustain(
     # adjust offset times of notes that have a reonset while the sustain pedal is on
     pitches = np.array([n["midi_pitch"] for n in notes])
     note_ons = np.array([n["note_on"] for n in notes])
+    note_offs = np.array([n["note_off"] for n in notes], dtype=float)
 
     for pitch in np.unique(pitches):
         pitch_indices = np.where(pitches == pitch)[0]
 
-        sorted_indices = pitch_indices[np.argsort(note_ons[pitch_indices])]
+        sorted_indices = pitch_indices[
+            np.argsort(note_ons[pitch_indices], kind="stable")
+        ]
         sorted_note_ons = note_ons[sorted_indices]
         sorted_sound_offs = offs[sorted_indices]
 
-        adjusted_sound_offs = np.minimum(sorted_sound_offs[:-1], sorted_note_ons[1:])
+        # a note ends at the next strike of the same pitch that does not
+        # precede the note's own release (overlapping notes of one pitch)
+        next_strike = np.maximum(
+            np.searchsorted(sorted_note_ons, note_offs[sorted_indices], side="left"),
+            np.arange(len(sorted_indices)) + 1,
+        )
+        has_strike = next_strike < len(sorted_indices)
+        sorted_sound_offs[has_strike] = np.minimum(
+            sorted_sound_offs[has_strike], sorted_note_ons[next_strike[has_strike]]
+        )
 
-        offs[sorted_indices[:-1]] = adjusted_sound_offs
+        offs[sorted_indices] = sorted_sound_offs
 
     for offset, note in zip(offs, notes):
         note["sound_off"] = offset
